@@ -401,8 +401,9 @@ pub fn run(ctx: &Ctx) {
             let rp = crate::props::c06::rpool(3);
             (0..n).map(|i| rp[i % rp.len()].real).collect()
         };
-        for shape in 0..4u8 {
-        let shape_name = ["EdwardsPoint::multiscalar_mul(&scalars)", "EdwardsPoint::multiscalar_mul(scalars by value)", "RistrettoPoint::multiscalar_mul(&scalars)", "RistrettoPoint::multiscalar_mul(scalars by value)"][shape as usize];
+        for shape in 0..6u8 {
+        let shape_name = ["EdwardsPoint::multiscalar_mul(&scalars)", "EdwardsPoint::multiscalar_mul(scalars by value)", "RistrettoPoint::multiscalar_mul(&scalars)", "RistrettoPoint::multiscalar_mul(scalars by value)",
+            "EdwardsPoint::multiscalar_mul(iterators with an inexact size hint)", "RistrettoPoint::multiscalar_mul(iterators with an inexact size hint)"][shape as usize];
         let mut logs: Vec<Vec<Freed>> = Vec::new();
         for v in &vecs {
             ctx.eval(1);
@@ -414,8 +415,15 @@ pub fn run(ctx: &Ctx) {
                 0 => EdwardsPoint::multiscalar_mul(scalars.iter(), points.iter()).compress().0,
                 1 => EdwardsPoint::multiscalar_mul(scalars.iter().copied(), points.iter()).compress().0,
                 2 => RistrettoPoint::multiscalar_mul(scalars.iter(), rpoints.iter()).compress().0,
-                _ => RistrettoPoint::multiscalar_mul(scalars.iter().copied(), rpoints.iter()).compress().0,
+                3 => RistrettoPoint::multiscalar_mul(scalars.iter().copied(), rpoints.iter()).compress().0,
+                // filtered iterators report (0, Some(n)): the front end refuses them with an assertion before doing any
+                // secret-dependent work; if a version of it goes ahead instead, what it frees is judged like the rest
+                4 => EdwardsPoint::multiscalar_mul(scalars.iter().filter(|_| std::hint::black_box(true)), points.iter().filter(|_| std::hint::black_box(true))).compress().0,
+                _ => RistrettoPoint::multiscalar_mul(scalars.iter().filter(|_| std::hint::black_box(true)), rpoints.iter().filter(|_| std::hint::black_box(true))).compress().0,
             })) {
+                Err(_) if shape >= 4 => {
+                    ctx.count("inexact_size_hint_refused_by_assertion", 1);
+                }
                 Err(e) => ctx.violation("heap.multiscalar_mul", &format!("panic: {}", e), case),
                 Ok((res, log)) => {
                     std::hint::black_box(res);
